@@ -143,6 +143,84 @@ def run(ctx):
             except Exception as exc:
                 ctx.disagree(f"expectation-raises:{type(exc).__name__}", str(exc), desc)
 
+    # ---- every dagger placement of rank 3 and rank 4 (identity letter order), spin-summed, bra != ket ---------------
+    for rank, nel, sz in ((3, 2, 0), (3, 3, 1), (4, 2, 0), (4, 3, -1)) if quick else \
+            ((3, 2, 0), (3, 3, 1), (3, 4, 0), (4, 2, 0), (4, 3, -1), (4, 3, 1), (4, 4, 0)):
+        norb = 2
+        ket = fqe.Wavefunction([[nel, sz, norb]])
+        U.random_fill(ket, rng, zero_p=0.0)
+        bra = copy.deepcopy(ket)
+        U.random_fill(bra, rng, zero_p=0.0)
+        ek, eb = U.wfn_entries(ket), U.wfn_entries(bra)
+        letters = "ijklmnop"[:2 * rank]
+        for flags in itertools.product((0, 1), repeat=rank):
+            dags = list(flags) + [1 - f for f in flags]
+            pattern = " ".join(letters[p] + ("^" if dags[p] else "") for p in range(2 * rank))
+            desc = {"wfn": "single", "norb": norb, "rank": rank, "sectors": [(nel, sz)], "same_bra": False, "pattern": pattern,
+                    "ket": [[a, b, [c.real, c.imag]] for a, b, c in ek], "bra": [[a, b, [c.real, c.imag]] for a, b, c in eb]}
+            try:
+                got = numpy.asarray(ket.rdm(pattern, brawfn=bra))
+            except Exception as exc:
+                ctx.disagree(f"rdm-raises:rank{rank}:{type(exc).__name__}", f"rdm('{pattern}') raised {exc}", desc)
+                continue
+            want = spec_rdm(d, norb, 1, eb, ek, pattern)
+            ctx.case(("ordering", rank, nel, sz, pattern))
+            ctx.count(f"ordering-sweep:rank{rank}")
+            if got.shape != want.shape or not numpy.allclose(got, want, atol=1e-9, rtol=0):
+                maxdiff = float(numpy.max(numpy.abs(got - want))) if got.shape == want.shape else -1
+                ctx.disagree(f"rdm:rank{rank}:ordering-sweep", f"rdm('{pattern}') differs from <bra|pattern|ket>, max |diff| {maxdiff}", desc)
+    # ---- string spaces longer than the internal blocks of the rank-2 kernels (100 x 100 blocks; >= 200 strings):
+    #      randomly chosen tensor elements against the exact Spec value ------------------------------------------------
+    from props.C10 import int_fill
+    wide = [(10, 0, 4), (10, 1, 6), (10, 4, 1)] if quick else [(10, 0, 4), (10, 1, 6), (10, 4, 1), (10, 5, 0), (10, 5, 1), (11, 1, 4), (9, 4, 4)]
+    nr = numpy.random.RandomState(rng.randrange(2 ** 31))
+    for norb, na, nb in wide:
+        key = (na + nb, na - nb)
+        ket = fqe.Wavefunction([[na + nb, na - nb, norb]])
+        bra = fqe.Wavefunction([[na + nb, na - nb, norb]])
+        for w in (ket, bra):
+            shp = w.get_coeff(key).shape
+            # sparse Gaussian-integer data: ~40 non-zero amplitudes spread over all blocks
+            arr = numpy.zeros(shp, dtype=numpy.complex128)
+            for _ in range(40):
+                arr[nr.randint(shp[0]), nr.randint(shp[1])] = complex(nr.randint(-3, 4), nr.randint(-3, 4))
+            arr[shp[0] - 1, shp[1] - 1] = 2.0
+            arr[0, 0] = 1.0 - 1.0j
+            w.set_wfn(strategy="from_data", raw_data={key: arr})
+        ek, eb = U.wfn_entries(ket), U.wfn_entries(bra)
+        for pattern, same in (("i^ j", False), ("i^ j^ k l", False), ("i^ j^ k l", True), ("i^ j k l^", False), ("i j k^ l^", True), ("i j^", True)):
+            toks = pattern.split()
+            try:
+                got = numpy.asarray(ket.rdm(pattern) if same else ket.rdm(pattern, brawfn=bra))
+            except Exception as exc:
+                ctx.disagree(f"rdm-raises:wide:{type(exc).__name__}", f"rdm('{pattern}') raised {exc}", {"norb": norb, "nalpha": na, "nbeta": nb})
+                continue
+            # elements: the largest ones of the returned tensor plus random ones
+            flat = numpy.argsort(-numpy.abs(got).ravel())[:12]
+            idxs = [tuple(int(x) for x in numpy.unravel_index(f, got.shape)) for f in flat]
+            idxs += [tuple(int(nr.randint(norb)) for _ in toks) for _ in range(12)]
+            letters, pat = [], []
+            for t in toks:
+                if t[0] not in letters:
+                    letters.append(t[0])
+                pat.append((letters.index(t[0]), 1 if t.endswith("^") else 0))
+            rank = len(toks) // 2
+            groups = [0] * len(letters)
+            for pos, t in enumerate(toks):
+                groups[letters.index(t[0])] = pos % rank
+            req = (f"rdmel {norb} 1 {fmt_vec(ek if same else eb)} {fmt_vec(ek)} {len(groups)} {' '.join(map(str, groups))} "
+                   f"{len(pat)} " + " ".join(f"{l} {dg}" for l, dg in pat) + f" {len(idxs)} " + " ".join(" ".join(map(str, i)) for i in idxs))
+            t = d.ask(req).split()
+            vals = [complex(float(Fraction(t[1 + 2 * i])), float(Fraction(t[2 + 2 * i]))) for i in range(int(t[0]))]
+            bad = [(i, complex(got[i]), v) for i, v in zip(idxs, vals) if abs(complex(got[i]) - v) > 1e-9]
+            ctx.case(("wide", norb, na, nb, pattern, same))
+            ctx.count("wide-sector-elements", len(idxs))
+            if bad:
+                ctx.disagree(f"rdm:wide-sector:rank{rank}", f"rdm('{pattern}') on a {ket.get_coeff(key).shape} sector: element {bad[0][0]} = "
+                             f"{bad[0][1]}, exact {bad[0][2]} ({len(bad)} of {len(idxs)} sampled elements differ)",
+                             {"norb": norb, "nalpha": na, "nbeta": nb, "pattern": pattern, "same_bra": same,
+                              "ket": [[a, b, [c.real, c.imag]] for a, b, c in ek], "bra": [[a, b, [c.real, c.imag]] for a, b, c in eb]})
+
 
 def replay(ctx, rep):
     run(ctx)
